@@ -792,7 +792,27 @@ def comprehension(engine, st, node, kind):
                 k = z3.Int("cs!k")
                 body = z3.Exists([q], z3.And(0 <= q, q < it.length, *conds, val == k))
                 return engine.alloc(st, V(Ty.Set(Key), [z3.Lambda([k], body)]))
-            raise Unsupported("dict comprehension over a sequence")
+            if kind == "dict":
+                # {key(q): value(q) for q in positions if cond(q)}: the last
+                # position with a given key wins (Python semantics); `pos` is the
+                # Skolem function of "the last such position", which exists
+                # because the range is finite
+                kq = engine.keyterm(engine.eval(st, node.key))
+                val = engine.unbox_value(st, engine.eval(st, node.value))
+                t = engine.hint_type(node, Ty.Map(Key, val.t))
+                val = engine.coerce(val, t.v)
+                k, q2 = z3.Int("cd!k"), z3.Int("cd!q2")
+                inr = z3.And(0 <= q, q < it.length, *conds)
+                sub = lambda e, x: z3.substitute(e, (q, x))
+                dom = z3.Lambda([k], z3.Exists([q], z3.And(inr, kq == k)))
+                pos = z3.Function(f"cd!pos!{node.lineno}.{node.col_offset}!{engine.new_id()}", Ty.IntS, Ty.IntS)
+                st.assume(z3.ForAll([k], z3.Implies(dom[k], z3.And(
+                    sub(inr, pos(k)), sub(kq, pos(k)) == k,
+                    z3.ForAll([q2], z3.Implies(z3.And(pos(k) < q2, sub(inr, q2)), sub(kq, q2) != k)))), patterns=[pos(k)]))
+                # every position's key is in the domain (instantiation help)
+                st.assume(z3.ForAll([q], z3.Implies(inr, z3.And(dom[kq], pos(kq) >= q)) ))
+                return engine.alloc(st, V(t, [dom] + [z3.Lambda([k], sub(c, pos(k))) for c in val.c]))
+            raise Unsupported("unsupported comprehension kind over a sequence")
         # SetIter: element is a function of the key q
         bind_comp_target(engine, g.target, it.elem(q))
         conds = [engine.truth(st, engine.eval(st, c)) for c in g.ifs]
